@@ -35,6 +35,16 @@ FloatOrFloatIterable = Union[Iterable_t[float], float]
 StrOrStrIterable = Union[Iterable_t[str], str]
 
 
+def _is_single_value(value: Any) -> bool:
+    """
+    Returns True if `value` is a single value (a number of any type,
+    including numpy scalars and 0-dimensional arrays) and False if it is
+    an iterable with several values.
+    """
+    return (not isinstance(value, Iterable)
+            or (isinstance(value, np.ndarray) and value.ndim == 0))
+
+
 # xxxxxxxxxxxxxxxxxxxxxxxxxxxxxxxxxxxxxxxxxxxxxxxxxxxxxxxxxxxxxxxxxxxxxxxxx
 # xxxxxxxxxxxxxxx Node class xxxxxxxxxxxxxxxxxxxxxxxxxxxxxxxxxxxxxxxxxxxxxx
 # xxxxxxxxxxxxxxxxxxxxxxxxxxxxxxxxxxxxxxxxxxxxxxxxxxxxxxxxxxxxxxxxxxxxxxxxx
@@ -2241,15 +2251,17 @@ class Cluster(shapes.Shape):
         if cell_ids is None:
             cell_ids = range(1, self.num_cells + 1)
 
-        if isinstance(cell_ids, Iterable):
-            num_users_iterable = num_users if isinstance(
-                num_users, Iterable) else itertools.repeat(num_users)
+        if not _is_single_value(cell_ids):
+            assert isinstance(cell_ids, Iterable)
+            num_users_iterable = itertools.repeat(
+                num_users) if _is_single_value(num_users) else num_users
 
             user_color_iterable = itertools.repeat(user_color) if (isinstance(
                 user_color, str) or user_color is None) else user_color
 
-            min_dist_ratio_iterable = min_dist_ratio if isinstance(
-                min_dist_ratio, Iterable) else itertools.repeat(min_dist_ratio)
+            min_dist_ratio_iterable = itertools.repeat(
+                min_dist_ratio) if _is_single_value(
+                    min_dist_ratio) else min_dist_ratio
 
             all_data = zip(cell_ids, num_users_iterable, user_color_iterable,
                            min_dist_ratio_iterable)
@@ -2311,21 +2323,21 @@ class Cluster(shapes.Shape):
         # If cell_ids is not an iterable, that is, cell_ids is a single
         # number, then we are simply calling the add_border_users method of
         # the specified cell
-        if not isinstance(cell_ids, Iterable):
-            self.get_cell_by_id(cell_ids).add_border_user(
+        if _is_single_value(cell_ids):
+            self.get_cell_by_id(cell_ids).add_border_user(  # type: ignore
                 angles, ratios, user_color)
         else:
             # If angles is not an iterable, then lets repeat the same value
             # for all specified cells by using itertools.repeat to make
             # angles an iterable.
-            angles_iter = angles if isinstance(
-                angles, Iterable) else itertools.repeat(angles)
+            angles_iter = itertools.repeat(angles) if _is_single_value(
+                angles) else angles
 
             # If ratios is not an iterable, then lets repeat the same value
             # for all specified cells by using itertools.repeat to make
             # ratios an iterable.
-            ratios_iter = ratios if isinstance(
-                ratios, Iterable) else itertools.repeat(ratios)
+            ratios_iter = itertools.repeat(ratios) if _is_single_value(
+                ratios) else ratios
 
             # If user_color is not an iterable of strings, then lets repeat
             # the same value for all specified cells by using
@@ -2356,8 +2368,8 @@ class Cluster(shapes.Shape):
             ID(s) of the cells from which users will be removed. If equal
             to None, all the users from all cells will be removed.
         """
-        if isinstance(cell_id, Iterable):
-            for i in cell_id:
+        if cell_id is not None and not _is_single_value(cell_id):
+            for i in cell_id:  # type: ignore
                 self.get_cell_by_id(i).delete_all_users()
         elif cell_id is None:
             for cell in self._cells:
